@@ -194,7 +194,7 @@ SIZEOF_TYPES = [("char", 1), ("signed char", 1), ("unsigned char", 1), ("short",
                 ("char *", "sizeof_pointer"), ("int **", "sizeof_pointer")]
 SZFIELD = {"TChar": 1, "TShort": "sizeof_short", "TInt": "sizeof_int", "TLong": "sizeof_long", "TLongLong": "sizeof_long_long"}
 CHAR_BODIES = [b"a", b"Z", b"0", b" ", b"\\n", b"\\t", b"\\0", b"\\\\", b"\\'", b"\\\"", b"\\a", b"\\x41", b"\\x7f", b"\\x80", b"\\xff", b"\\xe9",
-               b"\\101", b"\\177", b"\\200", b"\\377", b"\\e", b"ab", b"a\\n", b"\\xff\\xff", b"abcd", b"\\0a"]
+               b"\\x0ff", b"\\x041", b"\\101", b"\\177", b"\\200", b"\\377", b"\\e", b"ab", b"a\\n", b"\\xff\\xff", b"abcd", b"\\0a"]
 
 
 def x2_end_to_end(run, model, plats, lits):
@@ -318,7 +318,7 @@ def x2_end_to_end(run, model, plats, lits):
                             spec = v1 if (p["defaultSign"] == ord("u") or v1 < 128) else v1 - 256
                             run.count("x2:char-spec", None, nontrivial=(pname, text, cpp), bucket="%s,%s" % (pname, "ok" if spec == impl[0] else "diff"))
                             if spec != impl[0]:
-                                run.violation("x2:charspec:%s:%s" % (pname, text),
+                                run.violation("long-hex-escape-char-literal-unsigned-char-platform" if (p["defaultSign"] == ord("u") and v1 >= 128 and exp[1][:2] == b"\\x" and len(exp[1]) > 4) else "x2:charspec:%s:%s" % (pname, text),
                                               "%s in a .%s file on %s (plain char %s): Known %d, the value is %d" % (text, ext, pname, "unsigned" if p["defaultSign"] == ord("u") else "signed", impl[0], spec),
                                               dict(where, expected=spec, oracle="clang -target armv7-linux-gnueabihf / gcc -funsigned-char: _Static_assert('\\xff' == 255)"))
     finally:
@@ -507,7 +507,7 @@ def single_char_byte(body):
     simple = {b"n": 10, b"t": 9, b"0": 0, b"\\": 92, b"'": 39, b'"': 34, b"a": 7, b"e": 27}
     if len(body) == 1:
         return body[0]
-    if body[:2] == b"\\x" and 3 <= len(body) <= 4:
+    if body[:2] == b"\\x" and 3 <= len(body) <= 5:
         return int(body[2:], 16)
     if body[:1] == b"\\" and len(body) == 4 and body[1:].isdigit():
         return int(body[1:], 8)
